@@ -88,7 +88,7 @@ func newFnEnc(eng *Engine, fn *ssa.Function, name string, ctr *FuncContract) *fn
 		closures: map[ssa.Value]*ssa.MakeClosure{},
 		reach:   map[*ssa.BasicBlock]Term{}, outSt: map[*ssa.BasicBlock]*state{}, edge: map[[2]int]Term{},
 		oblNames: map[string]int{}, assumptions: map[string]bool{}, strLits: map[string]Term{},
-		ghostVars: map[string]Term{}, paramVal: map[string]SVal{}, implFns: map[string]*types.Interface{}, backGoals: map[int][]*backEdgeGoals{}, embIDs: map[string]int{}, invUse: map[string]bool{},
+		ghostVars: map[string]Term{}, paramVal: map[string]SVal{}, implFns: map[string]*types.Interface{}, backGoals: map[int][]*backEdgeGoals{}, embIDs: map[string]int{}, invUse: map[string]bool{}, acquired: map[string]*state{},
 	}
 	if e.pkg == "" && fn.Pkg != nil {
 		e.pkg = fn.Pkg.Pkg.Path()
